@@ -98,6 +98,11 @@ func (in *Interp) schedule() {
 	for {
 		t := in.pickNext()
 		if t == nil {
+			// nothing can run any more: remember whether the harness body got to its end
+			// (killAll below marks every thread done)
+			if len(in.threads) > 0 && in.threads[0].state != tsDone {
+				in.mainBlocked = "harness body blocked: " + in.threads[0].reason
+			}
 			return
 		}
 		in.cur = t
